@@ -86,7 +86,27 @@ mod x86_64 {
             asm!("pushfq; pop {}", out(reg) r, options(nomem, preserves_flags));
         }
 
+        #[cfg(feature = "verif_hooks")]
+        let r = verif_hooks::overlay(r);
+
         r
+    }
+
+    /// Verification hook H2: overlay emulated bits on the value read by `pushfq`
+    /// (IF/IOPL cannot be changed from ring 3). Default mask 0 = no effect.
+    #[cfg(feature = "verif_hooks")]
+    #[doc(hidden)]
+    pub mod verif_hooks {
+        use core::sync::atomic::{AtomicU64, Ordering};
+        /// Bits of the read value that are replaced.
+        pub static MASK: AtomicU64 = AtomicU64::new(0);
+        /// Replacement bits.
+        pub static VALUE: AtomicU64 = AtomicU64::new(0);
+        #[inline]
+        pub(super) fn overlay(r: u64) -> u64 {
+            let m = MASK.load(Ordering::Relaxed);
+            (r & !m) | (VALUE.load(Ordering::Relaxed) & m)
+        }
     }
 
     /// Writes the RFLAGS register, preserves reserved bits.
